@@ -207,16 +207,20 @@ pub fn check_channel(sc: &ChanScen, _shape: &str) {
                     );
                 }
             }
-            // Full is legitimate only if the channel can have been full at some instant of the call
+            // Full is legitimate only if the channel can have been full at some instant of the call.
+            // Receives are credited only when they happen-before the call (same thread): a receive
+            // of another thread that merely returned earlier in real time has no happens-before edge
+            // to this try_send, so the (Acquire) load of the consumer position may still read the
+            // older value under the C11 model loom explores — a late Full there is not a defect.
             for s in sends.iter().filter(|s| s.full) {
                 let others: usize = sends.iter().filter(|x| !std::ptr::eq(x.o, s.o) && x.o.call < s.o.ret).map(|x| x.ids.len()).sum();
-                let taken = recvs.iter().filter(|r| r.val.is_some() && r.o.ret < s.o.call).count();
+                let taken = recvs.iter().filter(|r| r.val.is_some() && r.o.ret < s.o.call && r.o.t == s.o.t).count();
                 if others < taken + cap {
                     oracle_fail(
                         "C03",
                         "false_full",
                         &opname(&s.o.op),
-                        &format!("Full although at most {} values were ever sent before it returned and {} had been received before it was called (capacity {})", others, taken, cap),
+                        &format!("Full although only {} values were ever offered by other sends before it returned and {} had been received (happens-before) when it was called (capacity {})", others, taken, cap),
                     );
                 }
             }
